@@ -5,7 +5,8 @@
         `block` = what the enclosing oneshot() block has cached (absent: not in a block / nothing cached):
         the model answers with `stepIn`, the specification is asked about `block.view world`
    world: {"dir":bool,"zombie":bool,"comm":hex,"cmdline":F,"environ":F,"exe":L,"cwd":L,"fs":[[hex,kind],…],
-           "uid":nat?,"tty":nat?,"users":[[uid,hex],…]?,"ttys":[[nr,hex],…]?}
+           "uid":nat?,"tty":nat?,"users":[[uid,hex],…]?,"ttys":[[nr,hex],…]?,
+           "stat":"ok|missing|denied"?}   (`/proc/<pid>/stat` itself; absent = ok while `dir`)
           F = {"data":hex} | {"err":"ENOENT|ESRCH|EACCES"},  L = {"target":hex} | {"err":…}
           kind = "absent"|"denied"|"dir"|"file"|"filex"   (paths not listed are absent)
         | {"op":"many","call":"cmdline|environ","zombie":bool,"blocks":[hex,…]}
@@ -76,7 +77,11 @@ def parseWorld (j : Json) : R World := do
   let tty ← optF asNat j "tty"
   let users ← optF (asList parseNatBytes) j "users"
   let ttys ← optF (asList parseNatBytes) j "ttys"
-  pure { dirExists := dir, zombie := z, comm := comm, cmdline := cl, environ := en, exe := ex,
+  let stat ← optF asStr j "stat"
+  let stat := stat.getD "ok"
+  if stat != "ok" && stat != "missing" && stat != "denied" then
+    throw s!"bad stat state {stat}"
+  pure { dirExists := dir, statExists := dir && stat != "missing", statReadable := dir && stat == "ok", zombie := z, comm := comm, cmdline := cl, environ := en, exe := ex,
          cwd := cw, fs := fun p => (fs.lookup p).getD .absent,
          uid := uid.getD 0, tty := tty.getD 0,
          users := fun u => (users.getD []).lookup u, ttys := fun t => (ttys.getD []).lookup t }
